@@ -6,6 +6,7 @@ import (
 	"fmt"
 	"os"
 	"path/filepath"
+	"regexp"
 	"sort"
 	"strings"
 	"time"
@@ -62,8 +63,12 @@ func cmdCheck(args []string) int {
 	verbose := fs.Bool("v", false, "verbose")
 	rebaseline := fs.Bool("rebaseline", false, "rewrite the ledger for this property")
 	noEvidence := fs.Bool("no-evidence", false, "do not write evidence")
+	replayDir := fs.String("replay-dir", "", "where replay files go (default <verif>/replay)")
 	fs.Parse(args)
 	t0 := time.Now()
+	if *replayDir != "" {
+		replayDirOverride = *replayDir
+	}
 
 	eng, err := LoadEngine(*repo)
 	if err != nil {
@@ -178,6 +183,13 @@ func cmdCheck(args []string) int {
 		}
 	}
 	var unitErrs []string
+	if *verbose {
+		for _, u := range units {
+			for _, h := range u.havocked {
+				fmt.Printf("  havoc in %s: %s\n", u.unitName(), h)
+			}
+		}
+	}
 	for _, u := range units {
 		for _, e := range u.errs {
 			unitErrs = append(unitErrs, u.unitName()+": "+e)
@@ -191,8 +203,12 @@ func cmdCheck(args []string) int {
 	}
 	// ledger: obligations discharged on the pinned tree must still exist
 	if *prop != "all" && *only == "" {
+		normSeen := map[string]bool{}
+		for n := range seen {
+			normSeen[normName(n)] = true
+		}
 		for _, name := range ledger[*prop] {
-			if !seen[name] {
+			if !normSeen[name] {
 				o := &Obligation{Name: name, Verdict: "undecided", Output: "obligation recorded in the ledger was not generated"}
 				violations = append(violations, reportViolation(*verif, *prop, o, known, &knownHits, "ledger obligation no longer generated"))
 			}
@@ -215,9 +231,11 @@ func cmdCheck(args []string) int {
 	}
 	if *rebaseline && *prop != "all" {
 		var names []string
+		dedup := map[string]bool{}
 		for _, o := range obls {
-			if o.Verdict == "discharged" || o.Verdict == "cover-ok" {
-				names = append(names, o.Name)
+			if (o.Verdict == "discharged" || o.Verdict == "cover-ok") && !dedup[normName(o.Name)] {
+				dedup[normName(o.Name)] = true
+				names = append(names, normName(o.Name))
 			}
 		}
 		sort.Strings(names)
@@ -274,8 +292,13 @@ func saveLedger(path string, m map[string][]string) {
 	os.WriteFile(path, b, 0o644)
 }
 
+var replayDirOverride string
+
 func writeReplay(verif, prop, name string, content map[string]interface{}) string {
 	dir := filepath.Join(verif, "replay")
+	if replayDirOverride != "" {
+		dir = replayDirOverride
+	}
 	os.MkdirAll(dir, 0o755)
 	path := filepath.Join(dir, fmt.Sprintf("%s_%s.json", prop, sanitize(name)))
 	content["property"] = prop
@@ -310,3 +333,8 @@ func reportViolation(verif, prop string, o *Obligation, known []KnownFinding, kn
 	}
 	return fmt.Sprintf("FAILED-OBLIGATION %s (%s)\nVIOLATION property=%s replay=%s no-failing-input-found", o.Name, reason, prop, path)
 }
+
+var normRe = regexp.MustCompile(`(#\d+|@ret\d+|\.case\d+|\.rest|~\d+)`)
+
+// normName strips site ordinals so that the ledger survives edits that add or remove sites.
+func normName(n string) string { return normRe.ReplaceAllString(n, "") }
